@@ -9,8 +9,11 @@ from contracts.ondisk import DiskFile
 from props.C01 import ASSUMPTIONS as A01, TRUSTED as T01
 
 ASSUMPTIONS = A01 + ["OnDisk file model as in C15; N_FIELDS equals the component count of every FAB (well-formed input)",
-                     "the level loop / slab assignment / completion-order independence of main() are covered by the "
-                     "bounded run-time layer (controllable pool: permuted completion orders), not by proof"]
+                     "main(): painting one returned box (refinement factor a skeleton parameter) and 'every file read once' "
+                     "(4 boxes over 3 files, symbolic sizes) are under contract as fragments; the level loop (coarse to fine) and "
+                     "completion-order independence are covered by the bounded run-time layer (controllable pool: permuted "
+                     "completion orders); disjointness of same-level boxes makes the painting order within a level irrelevant "
+                     "(well-formed input)"]
 TRUSTED = T01 + ["numpy: np.repeat(a, f, axis)[.., x, ..] == a[.., x // f, ..]", "pool.imap_unordered = some permutation (assumed)"]
 
 
@@ -96,7 +99,8 @@ class Expand3d(Task):
 
 
 def tasks(tier):
-    return [WhipScan(), Expand3d()]
+    from props.whip_parents import parent_tasks
+    return [WhipScan(), Expand3d()] + parent_tasks(tier)
 
 
 def canaries(tier):
@@ -105,7 +109,7 @@ def canaries(tier):
              [(f, "remainder = np.prod(tshape)*8 - np.prod(shape)*FIELD_INDEX*8 - np.prod(shape)*8",
                "remainder = np.prod(tshape)*8 - np.prod(shape)*FIELD_INDEX*8")], ["readfieldfrombinfile"]),
             ("expand3d: one axis repeated twice", [("amr_kitchen/utils.py", "factor, axis=1),\n                     factor, axis=2)",
-                                                   "factor, axis=1),\n                     factor, axis=1)")], ["expand_array3d"])]
+                                                   "factor, axis=1),\n                     factor, axis=1)")], ["expand_array3d"])] + __import__("props.whip_parents", fromlist=["parent_canaries"]).parent_canaries()
 
 
 SCENARIO_TIMEOUT = 400
